@@ -44,9 +44,16 @@ def base_consts(part, **kw):
     return c
 
 
-def elem_text(kind, n):
+def elem_text(kind, n, upper=False):
+    if upper:       # HTML names are case-insensitive
+        return {"img": f'<IMG SRC="i{n}.png" ALT="A{n}x">', "admon": f'<DIV CLASS="admonition">\n<P CLASS="title">T{n}x</P>\nB{n}x *em*\n</DIV>',
+                "div": f"<Div>D{n}x</Div>", "text": f"X{n}x", "ws": " \n "}[kind]
     return {"img": f'<img src="i{n}.png" alt="A{n}x">', "admon": f'<div class="admonition">\n<p class="title">T{n}x</p>\nB{n}x *em*\n</div>',
             "div": f"<div>D{n}x</div>", "text": f"X{n}x", "ws": " \n "}[kind]
+
+
+# fragments that end inside a construct: what they leave behind must not reach the next fragment
+UNTERMINATED = ['<div>\n<span class="x', '<img src="b.png" alt="one', "<div>\n<!-- open comment", "<div>\nx &amp"]
 
 
 def render_block(text, exts):
@@ -164,33 +171,45 @@ def run(ctx):
         elems = rec["elems"]
         if not elems:
             continue
-        # an html_block token must start with an HTML tag: lead with a <div> line only when needed
-        parts = [elem_text(k, n + 1) for n, k in enumerate(elems)]
         if elems[0] in ("text", "ws") or "ws" in elems:
             continue            # a leading text line is a paragraph; white space between elements is already there (the line breaks)
-        text = "\n".join(parts) + "\n"
         exts = (["html_image"] if rec["fimg"] else []) + (["html_admonition"] if rec["fadm"] else [])
-        nrec += 1
-        case = {"leg": "R-classify", "markdown": text, "extensions": exts}
-        try:
-            kinds, doc, _ = render_block(text, exts)
-            from ..render import md_parser
-            toks = [t for t in md_parser({"enable_extensions": exts}).parse(text) if t.type == "html_block"]
-        except Exception as e:  # noqa: BLE001
-            ctx.violation(f"rendering raised {type(e).__name__}: {e}", case)
-            continue
-        ctx.count(("classify", text, tuple(exts)), nontrivial=any(k in ("img", "admon") for k in elems))
-        ctx.traces_validated += 1
-        if len(toks) != 1 or toks[0].content != text:
-            continue            # the text is not one HTML block (generator miss)
-        exp = list(rec["out"])
-        if exp == ["raw"]:
-            if kinds != [("raw", toks[0].content)]:
-                ctx.violation(f"HTML block that is not fully convertible (elements {elems}, extensions {exts}) must be one raw node with the exact source text; observed {kinds}", case)
-        else:
-            got = [k for k, _ in kinds]
-            if got != exp:
-                ctx.violation(f"HTML block with elements {elems} and extensions {exts}: expected nodes {exp}, observed {got}", case)
+        # variants: lower-case / upper-case names; alone / after an unterminated fragment (another block of the same document)
+        for upper, lead in ((False, None), (True, None), (False, UNTERMINATED[nrec % len(UNTERMINATED)])):
+            parts = [elem_text(k, n + 1, upper) for n, k in enumerate(elems)]
+            text = "\n".join(parts) + "\n"
+            full = (lead + "\n\n" + text) if lead else text
+            nrec += 1
+            case = {"leg": "R-classify", "markdown": full, "extensions": exts}
+            try:
+                kinds, doc, _ = render_block(full, exts)
+                from ..render import md_parser
+                toks = [t for t in md_parser({"enable_extensions": exts}).parse(full) if t.type == "html_block"]
+            except Exception as e:  # noqa: BLE001
+                ctx.violation(f"rendering raised {type(e).__name__}: {e}", case)
+                continue
+            ctx.count(("classify", full, tuple(exts)), nontrivial=any(k in ("img", "admon") for k in elems))
+            ctx.traces_validated += 1
+            if lead:
+                if len(toks) != 2 or toks[1].content != text or not kinds or kinds[0] != ("raw", toks[0].content):
+                    if len(toks) == 2 and toks[1].content == text:
+                        ctx.violation(f"an unterminated HTML fragment {lead!r} must stay one raw node with its exact text; observed {kinds[:1]}", case)
+                    continue        # (generator miss: not two HTML blocks)
+                kinds = kinds[1:]
+                tok = toks[1]
+            else:
+                if len(toks) != 1 or toks[0].content != text:
+                    continue            # the text is not one HTML block (generator miss)
+                tok = toks[0]
+            exp = list(rec["out"])
+            where = f"elements {elems}{' (upper-case names)' if upper else ''}{' after the fragment ' + repr(lead) if lead else ''}, extensions {exts}"
+            if exp == ["raw"]:
+                if kinds != [("raw", tok.content)]:
+                    ctx.violation(f"HTML block that is not fully convertible ({where}) must be one raw node with the exact source text; observed {kinds}", case)
+            else:
+                got = [k for k, _ in kinds]
+                if got != exp:
+                    ctx.violation(f"HTML block with {where}: expected nodes {exp}, observed {got}", case)
     ctx.leg("R-classify", behaviours=nrec)
     # conversion = the directive spelling
     eq = [('<img src="a.png" alt="text" class="c1" width="10px">\n', "```{image} a.png\n:alt: text\n:class: c1\n:width: 10px\n```\n", ["html_image"]),
